@@ -7,6 +7,7 @@ import (
 	"path/filepath"
 	"sort"
 	"strings"
+	"sync"
 )
 
 // Seed-derived witnesses: every confirmed seeded change under /verif/seeded/<prop>-<k>/ (a realistic
@@ -138,17 +139,47 @@ type seedMeta struct {
 }
 
 func runSeedWitnesses(repo, vd, prop string, ff *FindingsFile) []WitnessResult {
-	dirs, _ := filepath.Glob(filepath.Join(vd, "seeded", prop+"-*"))
+	out := runPatchWitnesses(repo, vd, prop, "seeded", "break", ff)
+	// behaviour-preserving refactorings produced by independent agents (given only the property text):
+	// the property's rules must stay silent on each
+	return append(out, runPatchWitnesses(repo, vd, prop, "neutral", "neutral", ff)...)
+}
+
+func runPatchWitnesses(repo, vd, prop, sub, kind string, ff *FindingsFile) []WitnessResult {
+	dirs, _ := filepath.Glob(filepath.Join(vd, sub, prop+"-*"))
 	sort.Strings(dirs)
-	var out []WitnessResult
-	for _, d := range dirs {
-		name := "seed:" + filepath.Base(d)
-		res := WitnessResult{Name: name, Prop: prop, Kind: "break"}
+	out := make([]WitnessResult, len(dirs))
+	sem := make(chan struct{}, 4)
+	var wg sync.WaitGroup
+	for i, d := range dirs {
+		wg.Add(1)
+		go func(i int, d string) {
+			defer wg.Done()
+			sem <- struct{}{}
+			defer func() { <-sem }()
+			defer func() {
+				if x := recover(); x != nil {
+					out[i] = WitnessResult{Name: sub + ":" + filepath.Base(d), Prop: prop, Kind: kind, Status: "broken", Msg: fmt.Sprint("panic: ", x)}
+				}
+			}()
+			out[i] = runPatchWitness(repo, prop, sub, kind, d, ff)
+		}(i, d)
+	}
+	wg.Wait()
+	return out
+}
+
+func runPatchWitness(repo, prop, sub, kind, d string, ff *FindingsFile) WitnessResult {
+	{
+		name := sub + ":" + filepath.Base(d)
+		if sub == "seeded" {
+			name = "seed:" + filepath.Base(d)
+		}
+		res := WitnessResult{Name: name, Prop: prop, Kind: kind}
 		diff, err := os.ReadFile(filepath.Join(d, "patch.diff"))
 		if err != nil {
 			res.Status, res.Msg = "skipped", "no patch.diff"
-			out = append(out, res)
-			continue
+			return res
 		}
 		var meta seedMeta
 		if b, err := os.ReadFile(filepath.Join(d, "meta.json")); err == nil {
@@ -157,27 +188,30 @@ func runSeedWitnesses(repo, vd, prop string, ff *FindingsFile) []WitnessResult {
 		ov, why := applyPatchOverlay(repo, string(diff))
 		if why != "" {
 			res.Status, res.Msg = "skipped", why
-			out = append(out, res)
-			continue
+			return res
 		}
 		w, err := Load(LoadOpts{Dir: repo, Overlay: ov})
 		if err != nil {
 			res.Status, res.Msg = "skipped", "tree with the seeded change does not load: "+firstLine(err.Error())
-			out = append(out, res)
-			continue
+			return res
 		}
 		pr := runProp(w, prop, "quick", ff)
-		if len(pr.violations) > 0 {
+		switch {
+		case kind == "neutral" && len(pr.violations) == 0:
+			res.Status, res.Msg = "silent", "behaviour-preserving refactoring raised no report"
+		case kind == "neutral":
+			res.Status = "broken"
+			res.Msg = fmt.Sprintf("false alarm on a behaviour-preserving refactoring: %s %s", pr.violations[0].Rule, pr.violations[0].Key)
+		case len(pr.violations) > 0:
 			res.Status = "fired"
 			res.Rule = pr.violations[0].Rule
 			res.Msg = fmt.Sprintf("%d report(s), e.g. %s %s", len(pr.violations), pr.violations[0].Rule, pr.violations[0].Key)
-		} else {
+		default:
 			res.Status = "broken"
 			res.Msg = "a confirmed breaking change of " + prop + " is not reported by its rules"
 		}
-		out = append(out, res)
+		return res
 	}
-	return out
 }
 
 func firstLine(s string) string {
